@@ -40,6 +40,17 @@ class CachedStream(AsyncIterator[bytes]):
 
 
 class NextRequest(Request, MutableMapping[str, Any]):
+    def __getitem__(self, name: str) -> Any:
+        value = self._scope[name]
+        if name == "extensions" and value and "http.response.zerocopysend" in value:
+            # the response of the inner application is captured message by message
+            # (NextResponse.from_app): it must not be offered the zero-copy extension,
+            # whose messages carry a file descriptor instead of the body
+            value = {
+                k: v for k, v in value.items() if k != "http.response.zerocopysend"
+            }
+        return value
+
     def __setitem__(self, name: str, value: Any) -> None:
         self._scope[name] = value
 
